@@ -80,6 +80,83 @@ def interleaved_job(arg):
     return rep
 
 
+def _frame_worker(arg):
+    import os
+    import pickle
+
+    import dds
+    from checks import scen
+    from vp import vlog
+
+    store, root, tags, phase = arg
+    dds.accept_module("checks")
+    if store == "dbfs":
+        from vp.fakedbutils import FakeDbutils
+
+        dds.set_store("dbfs", internal_dir="dbfs:/internal", data_dir="dbfs:/data", dbutils=FakeDbutils(root))
+    else:
+        dds.set_store("local", internal_dir=os.path.join(root, "internal"), data_dir=os.path.join(root, "data"), cache_objects=(3 if store == "local_lru" else None))
+    out = {}
+    for t in tags:
+        vlog.clear()
+        try:
+            if phase == "keep":
+                v = dds.keep("/c04f/%s" % t, scen.frame_of, t)
+                v2 = dds.keep("/c04f/%s" % t, scen.frame_of, t)  # served from the store
+                out[t] = ("ok", pickle.dumps(v), pickle.dumps(v2), pickle.dumps(dds.load("/c04f/%s" % t)), vlog.snapshot())
+            else:
+                out[t] = ("ok", pickle.dumps(dds.load("/c04f/%s" % t)))
+        except BaseException as e:  # noqa
+            out[t] = ("exc", "%s: %s" % (type(e).__name__, str(e)[:200]))
+    return out
+
+
+def frame_job(arg):
+    """Kept functions that return tables (default / selected / named index, spreadsheet-style column names): the second
+    keep, dds.load here and in another process, and the parquet file under the data directory all give the kept table."""
+    import os
+    import pickle
+
+    from vp import storemodel as SM
+
+    store, tags = arg
+    rep = core.Report("C04")
+    rep.evaluations = len(tags)
+    case = {"frames": True, "store": store, "tags": tags}
+    with core.Scratch("vp_c04f_") as td:
+        a = core.fork_call(_frame_worker, (store, td, tags, "keep"), timeout=300)
+        b = core.fork_call(_frame_worker, (store, td, tags, "load"), timeout=300)
+        files = {}
+        if store != "dbfs":
+            import pandas as pd
+
+            for t in tags:
+                fp = os.path.join(td, "data", "c04f", t)
+                try:
+                    files[t] = pd.read_parquet(fp)
+                except BaseException as e:  # noqa
+                    files[t] = "%s: %s" % (type(e).__name__, str(e)[:100])
+    if isinstance(a, core.JobFailed) or isinstance(b, core.JobFailed):
+        rep.inconclusive.append("frame worker failed")
+        return rep
+    for t in tags:
+        want = SM.result_value(t)
+        if a[t][0] != "ok":
+            rep.violate("store %s: keep of a function returning the table %s raised %s" % (store, t, a[t][1]), case, mechanism="frame-keep-raised")
+            continue
+        obs = [("the keep that computed it", pickle.loads(a[t][1])), ("the second keep (served)", pickle.loads(a[t][2])), ("dds.load in the same process", pickle.loads(a[t][3]))]
+        obs.append(("dds.load in another process", pickle.loads(b[t][1]) if b[t][0] == "ok" else b[t][1]))
+        if t in files:
+            obs.append(("the file under the data directory", files[t]))
+        for label, got in obs:
+            rep.count("path_loads_checked")
+            if not SM.values_equal(got, want):
+                rep.violate("store %s: table %s: %s gives %s, the function returned %s" % (store, t, label, repr(got)[:160].replace("\n", " / "), repr(want)[:120].replace("\n", " / ")), case, mechanism="frame-not-served-as-kept")
+                break
+    rep.nontriv(("c04frames", store, repr(tags)))
+    return rep
+
+
 def moved_internal_job(arg):
     """One data directory used with two internal directories in turn (the blob store was moved, or a fresh cache
     directory is used): after the evaluation with the second one every path resolves through it - also once the first
@@ -153,7 +230,7 @@ def run(tier, seed):
     rep.rule = (
         "random programs (paths of 1-4 segments with shared directories, literal / module-variable / pathlib paths, tuple and str results) with 6-10 step edit histories on memory, local, local+cache and "
         "DBFS(fake); edit matrix subset; path-shape programs (concatenation-ambiguous names, shared directories, 1-4 segments, re-keep with changed code, paths dropped by an edit). After each step every path kept "
-        "so far is loaded in the same and in a fresh process; one data directory used with two internal directories in turn; interleaved sessions (A evaluates, another process evaluates an edited version, A evaluates again) "
+        "so far is loaded in the same and in a fresh process; kept functions returning tables; one data directory used with two internal directories in turn; interleaved sessions (A evaluates, another process evaluates an edited version, A evaluates again) "
         " and, for str results on file stores, read from the data directory. distinct_nontrivial = distinct cases with a store hit."
     )
     cases = build_cases(tier, seed)
@@ -173,6 +250,12 @@ def run(tier, seed):
             rep.inconclusive.append("interleaved job: %r" % (r,))
         else:
             rep.merge(r)
+    ftags = ["frame0", "frame1", "frame_labels", "frame_named_index", "frame_odd_names"]
+    for j, r in zip(("local", "local_lru", "dbfs"), core.fork_map(frame_job, [(st, ftags) for st in ("local", "local_lru", "dbfs")], timeout=900)):
+        if isinstance(r, core.JobFailed):
+            rep.inconclusive.append("frame job: %r" % (r,))
+        else:
+            rep.merge(r)
     mjobs = [(q, c, i) for i, q in enumerate(progsi[: (4 if tier == "quick" else 16)]) for c in (None, 3)]
     for j, r in zip(mjobs, core.fork_map(moved_internal_job, mjobs, timeout=1800)):
         if isinstance(r, core.JobFailed):
@@ -190,6 +273,9 @@ def replay(payload):
     from vp import e1
 
     rep = core.Report("C04")
+    if payload["case"].get("frames"):
+        rep.merge(frame_job((payload["case"]["store"], payload["case"]["tags"])))
+        return rep
     if payload["case"].get("moved_internal"):
         c = payload["case"]
         rep.merge(moved_internal_job((c["program"], c["cache"], c["idx"])))
